@@ -56,7 +56,7 @@ def main():
                       serves_properties=[c["property_id"] for c in checks],
                       kind_free_text="Rocq (Coq 8.16.1) theorems about executable Gallina models; models tied to /repo on every run by regenerating translators (constants/tables/static types; Go function bodies of a whitelisted subset with equivalence lemmas to the hand models) and a differential correspondence run (Go harness vs extracted model, sample re-evaluated in the kernel)")],
         checks=checks,
-        notes="See DESIGN.md (section 11: as built). known_findings.txt lists the fifteen defects repaired by 'fix:' commits in /repo and one recorded finding (C18). seeded/ holds " + str(len(glob.glob(os.path.join(ROOT, "seeded", "*", "*", "meta.json")))) + " independently seeded changes with each check's verdict.",
+        notes="See DESIGN.md (section 11: as built). known_findings.txt lists the sixteen defects repaired by 'fix:' commits in /repo and one recorded finding (C18). seeded/ holds " + str(len(glob.glob(os.path.join(ROOT, "seeded", "*", "*", "meta.json")))) + " independently seeded changes with each check's verdict.",
         not_applicable=na)
     json.dump(m, open(os.path.join(ROOT, "MANIFEST.json"), "w"), indent=1)
     print("MANIFEST.json:", len(checks), "checks,", len(na), "not claimed")
